@@ -130,6 +130,14 @@ class PolarsApply(Contract):
 
             res = T.Lazy(out)
         be = _backend(res, element_wise=T.Const(ew)).fresh("self")
+        if ew:
+            # as the back end builds it: check_fn = partial(the user's function, **the keyword arguments given to the Check)
+            from pyvc.interp import PartialVal
+
+            user_fn = fld0(be, "check_fn")
+            kw = SAny(name="check_kwargs.lo")
+            be.attrs["check_fn"] = be.attrs0["check_fn"] = PartialVal(user_fn, (), {"lo": kw})
+            cur().ghost.update(user_fn=user_fn, check_kw=kw)
         key = None if self.fixed.get("key", "none") == "none" else "a"
         data = Obj(PolarsData, "data", pre=True)
         data.attrs.update(lazyframe=lf, key=key)
@@ -147,7 +155,7 @@ class PolarsApply(Contract):
 
     def ensures(self, result, old, self_, check_obj):
         lf = cur().ghost["lf"]
-        cb = fld0(self_, "check_fn")
+        cb = cur().ghost["user_fn"] if self.fixed.get("element_wise", False) else fld0(self_, "check_fn")
         how = self.fixed.get("output", "one_column")
         out = {}
         i = z3.Int(cur().fresh_name("row"))
@@ -162,6 +170,8 @@ class PolarsApply(Contract):
                 result.cols[KEY].at(i)  # forces f(value at row i)
                 a = lf.cols["a"]
                 out["element_is_f_of_the_key_columns_element"] = len(cb.calls) == n0 + 1 and len(cb.calls[-1][0]) == 1 and bool(z3.is_true(z3.simplify(core.as_z3_bool(py_eq(cb.calls[-1][0][0], a.at(i))))))
+                # "element_wise=True equals the vectorised map of the function" - of the function WITH the keyword arguments of the Check
+                out["with_the_keyword_arguments_given_to_the_check"] = len(cb.calls) == n0 + 1 and dict(cb.calls[-1][1]) == {"lo": cur().ghost["check_kw"]}
             return out
         out["check_function_called_once_on_the_data"] = len(cb.calls) == 1 and len(cb.calls[0][0]) == 1 and cb.calls[0][0][0] is check_obj and not cb.calls[0][1]
         if how == "bool":
@@ -224,6 +234,42 @@ def _apply_standin(seed=0, tier="quick"):
 
 
 PolarsApply.bounded_standin = staticmethod(_apply_standin)
+
+
+def _apply_replay(self, rec):
+    def thunk():
+        """an element-wise check whose function takes keyword arguments from the Check: the same verdicts as the plain map of the function"""
+        import warnings
+
+        import polars as pl
+        import pandera as pa
+        import pandera.polars as pp
+
+        warnings.simplefilter("ignore")
+        obs, bad = {}, False
+
+        def above(v, lo=0):
+            return v > lo
+
+        data = [1, 2, 3]
+        want = [above(v, lo=2) for v in data]
+        res = pa.Check(above, element_wise=True, lo=2)(pl.LazyFrame({"a": data}), "a")
+        got = res.check_output.collect().get_column(KEY).to_list()
+        if got != want:
+            bad = True
+            obs["Check(above, element_wise=True, lo=2) on a=[1,2,3]: check output"] = f"{got}, expected {want}"
+        try:
+            pp.DataFrameSchema({"a": pp.Column(int, pa.Check(above, element_wise=True, lo=2))}).validate(pl.DataFrame({"a": data}))
+            bad = True
+            obs["schema with that check on a=[1,2,3]"] = "accepted, expected a SchemaError (1 and 2 are not above 2)"
+        except (pa.errors.SchemaError, pa.errors.SchemaErrors):
+            pass
+        return bad, obs or "element-wise checks are evaluated with the keyword arguments of the Check"
+
+    return thunk
+
+
+PolarsApply.concretize = _apply_replay
 
 
 class PolarsPostprocessDispatch(Contract):
